@@ -45,6 +45,8 @@ pub struct GenDict {
     pub bigram: Option<(String, String, String, bool)>,
     /// with `bigram`: `matrix` holds the DECLARED costs (the defining feature-pair sums of the bigram files)
     pub declared_conn: bool,
+    /// the definition files are handed to the builders with CRLF line ends
+    pub crlf: bool,
 }
 
 pub struct GenOpts {
@@ -229,11 +231,13 @@ pub fn gen_dict(rng: &mut Rng, o: &GenOpts) -> GenDict {
                 };
             }
             // occasionally a connection id outside the connector (must be rejected)
-            if rng.chance(1, 25) {
+            // (more often when the user lexicon is the subject; the id may lie in the gap between the two
+            // dimensions of a non-square connector, where a crossed or stale bound would let it pass)
+            if rng.chance(1, if o.with_user >= 90 { 9 } else { 25 }) {
                 if rng.chance(1, 2) {
-                    r.lid = (nleft + rng.below(2) as usize) as u16;
+                    r.lid = if nright > nleft && rng.chance(1, 2) { (nleft + rng.below((nright - nleft) as u64) as usize) as u16 } else { (nleft + rng.below(2) as usize) as u16 };
                 } else {
-                    r.rid = (nright + rng.below(2) as usize) as u16;
+                    r.rid = if nleft > nright && rng.chance(1, 2) { (nright + rng.below((nleft - nright) as u64) as usize) as u16 } else { (nright + rng.below(2) as usize) as u16 };
                 }
             }
         }
@@ -258,7 +262,7 @@ pub fn gen_dict(rng: &mut Rng, o: &GenOpts) -> GenDict {
             _ => { cats.retain(|c| c.name != "DEFAULT"); } // DEFAULT never defined
         }
     }
-    GenDict { cats, ranges, unk, sys, user, nright, nleft, matrix, space_clean, unk_covered, bigram: None, declared_conn: false }
+    GenDict { cats, ranges, unk, sys, user, nright, nleft, matrix, space_clean, unk_covered, bigram: None, declared_conn: false, crlf: rng.chance(1, 6) }
 }
 
 impl GenDict {
@@ -304,6 +308,10 @@ impl GenDict {
         let u = Self::rows_csv(&self.unk);
         let user = self.user.as_ref().map(|r| Self::rows_csv(r));
         let bigram = self.bigram.clone();
+        let dos = |t: String| if self.crlf { t.replace('\n', "\r\n") } else { t };
+        let (lex, m, c, u) = (dos(lex), dos(m), dos(c), dos(u));
+        let user = user.map(dos);
+        let bigram = bigram.map(|(r, l, cost, dual)| (dos(r), dos(l), dos(cost), dual));
         guarded(move || {
             let d = match bigram {
                 Some((r, l, cost, dual)) => vibrato::SystemDictionaryBuilder::from_readers_with_bigram_info(
